@@ -94,14 +94,17 @@ At(s) ==
 
 Find(s, ids) == errs' = errs \cup {[st |-> s, id |-> i] : i \in ids}
 
-Emit(ls) == stderrLines' = stderrLines \o ls /\ lex' = LexFrom(lex, ls, 1)
+Emit(ls) == stderrLines' = stderrLines \o ls /\ lex' = LexRun(stderrLines \o ls)
 
 RECURSIVE EntryLines(_, _)
 EntryLines(entries, i) ==
     IF i > Len(entries) THEN <<>>
     ELSE <<"bullet">> \o [j \in 1..entries[i] |-> "cont"] \o EntryLines(entries, i + 1)
 \* entries: sequence (one per bulleted entry) of the number of continuation lines
-ReportLines(entries) == <<"headline">> \o EntryLines(entries, 1)
+ReportLines(entries) ==
+    IF \A i \in 1..Len(entries) : entries[i] = 0
+    THEN <<"headline">> \o [i \in 1..Len(entries) |-> "bullet"]     \* (no recursion: a report can have many entries)
+    ELSE <<"headline">> \o EntryLines(entries, 1)
 
 FailOneLiner ==
     /\ failed' = "oneliner" /\ pending' = FALSE /\ stage' = "Exit"
@@ -384,7 +387,7 @@ StdoutTail == Done /\ tool = "main" => StdoutTailOf(rc, stdoutTail = "generated"
 \* C03: a non-zero exit comes with a one-line message or a well-formed report
 ReportShape == Done => ReportShapeOf(rc, stderrLines)
 ReportIsReport == Done /\ failed = "report" => lex \in LexAccepting /\ IsReport(stderrLines)
-LexOnline == lex = LexRun(stderrLines)
+LexOnline == lex = LexRun(stderrLines) /\ lex = LexFold(stderrLines)
 \* C03: no error is silently dropped
 FoundSubsetReported == Done => FoundSubsetReportedOf(IdsOf(errs), reported)
 ErrorsImplyFailure == Done /\ errs # {} => rc = 1
